@@ -52,5 +52,37 @@ def fill(claim, na):
         TB + "The lift from weight maps to complete kernel lists is by linearity and is additionally observed on real runs; NC->EM is proved as NC-EM = eta*(A+eta*B).",
         "DESIGN.md 6/C13",
     )
-    for p in ["C01", "C03", "C04", "C05", "C09", "C10", "C11", "C14", "C15", "C16", "C17", "C18", "C19", "C20"]:
+    claim(
+        "C05",
+        "proof",
+        "Lean 4 theorems: RGE residuals of the model's scale-variation terms vanish over an arbitrary commutative Q-algebra; renormalisation re-expansion as polynomial identities with explicit remainders; key/switch lemmas on the executable model; the executable model is compared with the real compute_local (stubbed convolutions, integer operators)",
+        "For every choice of splitting kernels, coefficient functions, beta0, beta1: the (1,1), (2,1), (2,2) factorisation terms built by the model's sector_mapping make the muF-derivative vanish through a_s^2 (singlet with gluon mixing and the three non-singlet sectors); the ren_coeffs table is exactly the a_s(muF)->a_s(muR) re-expansion through a_s^3; switching a variation off removes exactly the entries carrying its log; intrinsic kernels never get a factorisation log. The same generic model, instantiated on matrices, reproduces the real compute_local tensors for every key on random configurations each run.",
+        TB + "Hypothesis `Products` (the convolved labels are products of their factors) is checked on Mellin moments of the real kernels; eko's projector algebra (how sector operators recombine) is taken from eko and exercised through the correspondence; muF terms beyond a_s^2 are a TODO in the source.",
+        "DESIGN.md 6/C05",
+    )
+    claim(
+        "C11",
+        "proof",
+        "Lean 4 theorems: the coefficient triple equals the documented (N, y+, y-, yL) table for all rational x, y, Q2 and parameters; the result is that linear combination key by key; + correspondence of xs_coeffs and real XS-vs-SF runs",
+        "All ten cross-section kinds: coefficients = documented combination (sign of the F3 term fixed by the lepton charge), result entries = c1 F2 + c2 FL + c3 xF3 of the same run for every order / scale-variation key (F3 skipped exactly when its coefficient is zero).",
+        TB + "pi and sqrt(M2target) are parameters; the documented table is hand-transcribed (XSFPFCC after doc fix e936043f).",
+        "DESIGN.md 6/C11",
+    )
+    claim(
+        "C15",
+        "proof",
+        "Lean 4 theorems on a data model of get_raw/from_document and the tar/yaml layouts (numbers and tensors opaque) + layout correspondence against real tar archives + exact round trips of real runner outputs",
+        "load(dump(o)) = o for YAML (any observable value) and for tar (any observable whose results share their order list, incl. None and empty), also under repeated cycles; the model's tar layout and reloaded object are compared literally with what the real dump_tar writes and load_tar returns.",
+        TB + "That yaml repr / npz preserve doubles is yaml/numpy behaviour: exercised by real round trips (1-3 cycles, both formats), not modelled.",
+        "DESIGN.md 6/C15",
+    )
+    claim(
+        "C17",
+        "proof",
+        "Lean 4 theorems on the contraction model (formula, linearity, masking of missing flavours, log powers) + correspondence with the real ESFResult.apply_pdf incl. the scale arguments it passes; alpha_s construction observed only",
+        "PARTIAL. Proved: prediction = sum over orders of a_s^k alpha^l lnR^i lnF^j times the contraction with f/x over the flavours the PDF provides; linear in the PDF; L^0=1 special case consistent. Observed on the real code: alpha_s/alpha are called at xiR*Q, xfxQ2 at xiF^2 Q2 on exactly the grid nodes; alpha_s from the theory card reproduces the reference value and runs with nf=NfFF in fixed-flavour schemes (LO analytic).",
+        TB + "eko's Couplings (alpha_s solver) is external; logs and couplings enter the model as rational parameters.",
+        "DESIGN.md 6/C17",
+    )
+    for p in ["C01", "C03", "C04", "C09", "C10", "C14", "C16", "C18", "C19", "C20"]:
         na(p, "check not yet built in this round (design in DESIGN.md section 6); will be claimed once its Lean model, theorems and correspondence exist")
